@@ -93,7 +93,7 @@ def coq_case(sc):
 PREAMBLE = "From H2V Require Import Base.Tac Base.Bytes Model.Counts.\nLocal Open Scope Z_scope.\n"
 
 
-def correspond_counts(rep, tier, seed, profiles=("limits", "limits", "reset", "mixed", "chaos")):
+def correspond_counts(rep, tier, seed, profiles=("queue", "limits", "queue", "reset", "mixed", "chaos")):
     per = 50 if tier == "quick" else 1200
     steps = 100 if tier == "quick" else 150
     all_cases, all_scs, hist = [], [], {}
